@@ -31,11 +31,31 @@ func RenameBlankIdentifier(sig *types.Signature) *types.Signature {
 // The given prefix is used to rename.
 func RenameBlankIdentifierWith(sig *types.Signature, prefix string) *types.Signature {
 	params := sig.Params()
-	if !hasBlankIdentifier(params) {
+	if !hasBlankIdentifier(params) && !hasName(sig.Results(), "f") {
 		return sig
 	}
 	renamedTuple := rename(params, prefix)
-	return types.NewSignature(sig.Recv(), renamedTuple, sig.Results(), sig.Variadic())
+	return types.NewSignature(sig.Recv(), renamedTuple, unnamed(sig.Results()), sig.Variadic())
+}
+
+// unnamed returns the results without their names,
+// since a named result can shadow f or a renamed parameter in the generated code.
+func unnamed(tup *types.Tuple) *types.Tuple {
+	vars := make([]*types.Var, tup.Len())
+	for i := range vars {
+		varValue := tup.At(i)
+		vars[i] = types.NewVar(varValue.Pos(), varValue.Pkg(), "", varValue.Type())
+	}
+	return types.NewTuple(vars...)
+}
+
+func hasName(tup *types.Tuple, name string) bool {
+	for i := 0; i < tup.Len(); i++ {
+		if tup.At(i).Name() == name {
+			return true
+		}
+	}
+	return false
 }
 
 func hasBlankIdentifier(tup *types.Tuple) bool {
